@@ -8,7 +8,14 @@
    time_xact_t (timestamp, capitalised?, account, description) to clock_in / clock_out; a line that
    ends after the timestamp is a check-in to the account named "" or a check-out with account NULL.
    An account is account_t* in the code: NULL or the unique node of a full name; pointer equality
-   is name equality.  Notes (`; ...` after the description) are not modelled. *)
+   is name equality.  The name an event carries is the RESOLVED full name, for check-ins and
+   check-outs alike: both directives look the written text up with top_account()->find_account(text),
+   i.e. below the master account (--master-account, or for an included file the account current at
+   its include line) and the arguments of the enclosing `apply account` blocks, joined by `:`.  That
+   both use the same expression is re-read from the source on every run (Gen/ClockAccount.v,
+   Proofs clock_lines_resolve_alike); the harness does the joining.  An included file is parsed by an
+   instance_t of its own with its own time_log_t: it is a `journal` of its own, closed at its end.
+   Notes (`; ...` after the description) are not modelled. *)
 From LedgerV Require Import Base.Prelude.
 Local Open Scope Z_scope.
 
